@@ -790,7 +790,7 @@ def _checker_digest() -> str:
         for dp, dn, fn in sorted(os.walk(root)):
             dn.sort()
             for f in sorted(fn):
-                if f.endswith(".py"):
+                if f.endswith(".py") and f != "manifest_gen.py" and "selftest" not in dp:
                     with open(os.path.join(dp, f), "rb") as fh:
                         h.update(f.encode())
                         h.update(fh.read())
